@@ -515,6 +515,9 @@ func c17r1(c *Ctx) {
 		p.Func(pkgCore, "ConfigGeneratorImpl", "BuildNameTable"), p.Func(pkgXds, "EdsGenerator", "buildEndpoints"),
 		p.Func(pkgXds, "DiscoveryServer", "pushXds"), p.Func(pkgXds, "DiscoveryServer", "pushDeltaXds"),
 	}
+	if os.Getenv("VERIF_C17_INIT") != "" { // development: also the snapshot-building graph
+		entries = append(entries, p.Func(pkgModel, "PushContext", "createNewContext"), p.Func(pkgModel, "PushContext", "updateContext"))
+	}
 	reach := p.CG().Reach(entries, nil)
 	c.Stat("generation_reachable_functions", len(reach))
 	armed := map[string]bool{istioMod + "/" + pkgEndpoints: true, istioMod + "/" + pkgRoute: true, istioMod + "/" + pkgXds: true}
